@@ -4,3 +4,5 @@ import Amqp.Gen.SessionKernels
 import Amqp.Gen.CreditKernels
 import Amqp.Session
 import Amqp.Credit
+import Amqp.Gen.RecvCreditKernels
+import Amqp.RecvCredit
